@@ -345,6 +345,10 @@ Variable names : list (str * N).       (* local names -> ids used by the schema 
 Variable uris : list (str * N).        (* namespace URIs -> nsid *)
 Variable kinds : list (N * N).         (* element / attribute name id -> built-in position *)
 Variable globals : list (qn * qn).     (* global elements: name -> type *)
+(* counterfactual switches, used ONLY to attribute a disagreement with the
+   reference to a known quirk; the model of the code is the instance false/true *)
+Variable strict_qname : bool.          (* true: unprefixed QName -> default namespace (not the code) *)
+Variable do_promote : bool.            (* false: skip promotePrefixes (not the code) *)
 
 Definition nid (s : str) : N := match sfind s names with Some n => n | None => 0%N end.
 Definition uid (u : option str) : N :=
@@ -386,7 +390,7 @@ Definition known (env : list frame) (p : option str) (ats : list attr) : dres (o
                        | None => DException
                        | Some u => DOk (query n (Some u))
                        end
-      | (None, n) => DOk (query n (elem_ns p env))
+      | (None, n) => DOk (query n (if strict_qname then default_ns env else elem_ns p env))
       end
   end.
 
@@ -547,7 +551,7 @@ Definition frame_of (e : elem) : frame := (e_expns e, e_decls e).
 (* root = the document element as built by Handler *)
 Definition get_reply (wt : ctype) (root : elem) : dres pyval :=
   if negb (el_match [] root s_Envelope uri_env11 || el_match [] root s_Envelope uri_env12) then DOther else
-  let envl := promote_node root in
+  let envl := if do_promote then promote_node root else root in
   let fe := [frame_of envl] in
   match (match get_kid fe (e_kids envl) s_Body uri_env11 with
          | Some b => Some b
